@@ -1,6 +1,7 @@
 package checks
 
 import (
+	"strings"
 	"encoding/json"
 	"fmt"
 	"math/big"
@@ -161,5 +162,51 @@ func judgeExportContent(r *ev.Run, si int, src *chain.Snapshot, export string, w
 	}
 	if len(doc.PC.Claims) != len(src.Claims) {
 		diff("claims", fmt.Sprintf("%d pending claims on chain, %d exported", len(src.Claims), len(doc.PC.Claims)))
+	}
+	// parameters: every value in a module's parameter store must appear, as the value of some field, in that module's
+	// exported params object (field names differ from store keys; values are encoded by the same JSON codec)
+	var mods map[string]struct {
+		Params map[string]json.RawMessage `json:"params"`
+	}
+	if err := json.Unmarshal([]byte(export), &mods); err != nil {
+		diff("unparseable-params", err.Error())
+		return
+	}
+	var keys []string
+	for k := range src.Params {
+		keys = append(keys, k)
+	}
+	sort.Strings(keys)
+	for _, k := range keys {
+		i := strings.Index(k, "/")
+		if i < 0 {
+			continue
+		}
+		m, ok := mods[k[:i]]
+		if !ok || m.Params == nil {
+			diff("param-module-missing/"+k[:i], fmt.Sprintf("the export has no params object for module %s (parameter %s = %s is stored on chain)", k[:i], k, src.Params[k]))
+			continue
+		}
+		// the store wraps interface-typed values as {"type":..,"value":..}; the genesis struct holds the bare value
+		wants := []string{normParam(src.Params[k])}
+		var wrapped struct {
+			Type  string          `json:"type"`
+			Value json.RawMessage `json:"value"`
+		}
+		if json.Unmarshal([]byte(src.Params[k]), &wrapped) == nil && wrapped.Type != "" && wrapped.Value != nil {
+			wants = append(wants, normParam(string(wrapped.Value)))
+		}
+		found := false
+		for _, v := range m.Params {
+			for _, want := range wants {
+				if normParam(string(v)) == want {
+					found = true
+				}
+			}
+		}
+		r.Count("export_params_compared", 1)
+		if !found {
+			diff("param-not-exported/"+k, fmt.Sprintf("parameter %s is %s on chain; no field of the exported %s params holds that value", k, src.Params[k], k[:i]))
+		}
 	}
 }
